@@ -125,6 +125,8 @@ def check(run):
             return bool(sw) and any(o["op"] == "rel" for o in h[sw[0]:])
         must = [script(h, {"c1": 1, "c2": 2}) for h in hs if late_rel(h)]
         scns = scns[:: max(1, len(scns) // 150)] + must
+    elif len(scns) > 6000:
+        scns = scns[:: len(scns) // 6000 + 1]          # depth 4 has ~18 000 scripts: an even third of them
     nshort = len(scns)
     if not thorough:
         scns.append(long_run(rng, 640))
@@ -142,6 +144,8 @@ def check(run):
     # one of them fails and recovers (QoS 1; the acknowledgement must be withheld whichever destination failed)
     hf = inboundlib.gen(run, "c02", [1, 2], ["c1"], ["m1", "m2", "m3"], [1], 4 if thorough else 3, qos=(1,))
     hf = [h for h in hf if any(o["op"] == "pub" for o in h) and any(o["op"] == "toggle" for o in h) and not any(o["op"] in ("pubrel", "sweep") for o in h)]
+    if len(hf) > 2000:
+        hf = hf[:: len(hf) // 2000 + 1]
     scns += [inboundlib.scenario(h, [1, 2]) for h in hf]
     run.log("%d short scripts from TLC + %d long runs + %d two-node scripts with failures" % (nshort, len(scns) - nshort - len(hf), len(hf)))
     tpath, crashes = brokerlib.execute(run, scns, "c02", shards=12, timeout=3000)
